@@ -102,7 +102,7 @@ class C10Part(M.MiscPart):
 
         def extra(i, cls, wb=0):
             return [op % ((i, wb) if self.name == "tdigest" else (i,))]
-        n = {"bloom": 25, "tdigest": 20, "density": 25}[self.name] * (1 if tier == "quick" else 8)
+        n = {"bloom": 25, "tdigest": 20, "density": 25}[self.name] * (1 if tier == "quick" else 20)
         return [self.gen(rng, tier, extra) for _ in range(n)]
 
     def oracle(self, hist, impl_out):
